@@ -97,7 +97,7 @@ class C03(PropBase):
             seq = []
             for i in range(rng.randrange(6, 16)):
                 a = rng.choice(addrs)
-                f = gen.rand_frame(rng, rng.choice(gen.FORMATS[:-2]), a)
+                f = gen.rand_frame(rng, rng.choice([k for k in gen.FORMATS if k not in ("df24", "df19", "df22", "df25", "df28", "df31")]), a)
                 seq.append((a, f))
                 ops += [f"case {i}"] + gen.seg([f]) + ["dump"]
             impl, _, model = run.execute(ops, model=driver_ok)
